@@ -13,13 +13,13 @@ import (
 type RootKind int
 
 const (
-	RFresh    RootKind = iota // allocated in this activation (Alloc, make, composite literal, closure)
-	RGlobal                   // package-level variable
-	RParam                    // function parameter (incl. receiver)
-	RFreeVar                  // captured variable
-	RCall                     // result of a call
-	RConst                    // constant / nil / no memory
-	RUnknown                  // anything else
+	RFresh   RootKind = iota // allocated in this activation (Alloc, make, composite literal, closure)
+	RGlobal                  // package-level variable
+	RParam                   // function parameter (incl. receiver)
+	RFreeVar                 // captured variable
+	RCall                    // result of a call
+	RConst                   // constant / nil / no memory
+	RUnknown                 // anything else
 )
 
 type Root struct {
